@@ -1,5 +1,6 @@
 // Stage cli: the same oracle through the real binary:
-//   atlas schema apply --auto-approve --url sqlite://<file>?_fk=N --to file://schema.{hcl,sql} --tx-mode {file,none}
+//
+//	atlas schema apply --auto-approve --url sqlite://<file>?_fk=N --to file://schema.{hcl,sql} --tx-mode {file,none}
 package main
 
 import (
